@@ -67,16 +67,16 @@ Rev3(a)  == <<a[3], a[2], a[1]>>
 LexLess(a, b) == \E i \in Ix(a) : a[i] < b[i] /\ \A j \in 1..(i - 1) : a[j] = b[j]
 
 (* ------------------------------------------------ tree helpers ------------------------------------------- *)
-Parent(t, n) == IF \E p \in Ix(t) : \E k \in Ix(t[p].kids) : t[p].kids[k] = n
-                THEN CHOOSE p \in Ix(t) : \E k \in Ix(t[p].kids) : t[p].kids[k] = n ELSE 0
-ParentMap(t) == [n \in Ix(t) |-> Parent(t, n)]
+\* parent of every node (0 for the root / unreachable nodes), one pass over the child lists
+ParentMap(t) == FoldLeft(LAMBDA acc, p : FoldLeft(LAMBDA a, c : [a EXCEPT ![c] = p], acc, t[p].kids),
+                         [n \in Ix(t) |-> 0], [p \in Ix(t) |-> p])
+Parent(t, n) == ParentMap(t)[n]
 
 \* IndexLocation.getCompleteIndices (locations.py:258): one level, never recursive
 AddsOwner(t, n) == LET o == t[n].lg IN
                    /\ t[n].lk = "I" /\ o # 0
                    /\ t[o].grid.ax
-                   /\ t[o].lk \in {"I", "C"} /\ t[o].lg # 0 /\ ~t[t[o].lg].grid.ax
-                   /\ Parent(t, o) # 0
+                   /\ t[o].lk \in {"I", "C"} /\ t[o].lg # 0 /\ ~t[t[o].lg].grid.ax      \* (the owner then has a parent: WellFormed)
 Complete(t, n) == IF t[n].lk = "C" THEN Zero3                       \* CoordinateLocation.getCompleteIndices: "top of chain"
                   ELSE IF AddsOwner(t, n) /\ t[t[n].lg].lk = "I" THEN Add3(t[n].loc[1], t[t[n].lg].loc[1])
                   ELSE t[n].loc[1]
@@ -103,14 +103,15 @@ MemOrder(t, n) == <<n>> \o Cat([i \in Ix(t[n].kids) |-> MemOrder(t, t[n].kids[i]
 \* a tree: every node reachable from the root exactly once; the structural assumptions the projection must meet
 IsTree(t) == LET o == MemOrder(t, 1) IN Len(o) = Len(t) /\ {o[i] : i \in Ix(o)} = Ix(t)
 WellFormed(t) == /\ IsTree(t)
-                 /\ \A n \in Ix(t) : /\ t[n].lk \in {"N", "C", "I", "M"}
-                                    /\ ((t[n].lk \in {"I", "M"}) => (t[n].lg # 0 /\ t[n].lg = Parent(t, n) /\ t[t[n].lg].grid # NoGrid))
+                 /\ LET pm == ParentMap(t) IN
+                    \A n \in Ix(t) : /\ t[n].lk \in {"N", "C", "I", "M"}
+                                    /\ ((t[n].lk \in {"I", "M"}) => (t[n].lg # 0 /\ t[n].lg = pm[n] /\ t[t[n].lg].grid # NoGrid))
                                     /\ ((t[n].lk \in {"N", "C"}) => (t[n].lg = 0))
                                     /\ Len(t[n].loc) = (CASE t[n].lk = "N" -> 0 [] t[n].lk = "M" -> Len(t[n].loc) [] OTHER -> 1)
 
 Pos(seq, x) == CHOOSE i \in Ix(seq) : seq[i] = x
 Canon(t) == LET ord == Order(t, 1)
-                inv == TLCEval([n \in Ix(t) |-> Pos(ord, n)])
+                inv == FoldLeft(LAMBDA acc, i : [acc EXCEPT ![ord[i]] = i], [n \in Ix(t) |-> 0], [i \in Ix(ord) |-> i])
             IN TLCEval([i \in Ix(ord) |->           \* TLCEval: TLC would otherwise re-evaluate the lazy function at every use
                   LET nd == t[ord[i]] IN
                   [nd EXCEPT !.kids = LET ks == SortKids(t, nd.kids) IN [k \in Ix(ks) |-> inv[ks[k]]],
@@ -181,8 +182,8 @@ Unflatten(f) ==
         nc     == f.numChildren
         sz     == Sizes(nc)
         kids   == TLCEval([i \in 1..n |-> KidsOf(nc, sz, i)])
-        par    == TLCEval([i \in 1..n |-> IF \E p \in 1..n : \E k \in Ix(kids[p]) : kids[p][k] = i
-                                  THEN CHOOSE p \in 1..n : \E k \in Ix(kids[p]) : kids[p][k] = i ELSE 0])
+        par    == FoldLeft(LAMBDA acc, p : FoldLeft(LAMBDA a, c : [a EXCEPT ![c] = p], acc, kids[p]),
+                           [i \in 1..n |-> 0], [p \in 1..n |-> p])
         start  == FoldLeft(LAMBDA acc, j : Append(acc, acc[Len(acc)] + f.lcount[j]), <<1>>, [j \in 1..n |-> j])
         rowsOf(i) == SubSeq(f.rows, start[i], start[i] + f.lcount[i] - 1)      \* _unpackLocationsV2: next(locsIter) per type
         grid(i) == IF f.gridIndex[i] = 0 THEN NoGrid ELSE f.grids[f.gridIndex[i]]      \* _initComps: gridClasses[type](*params)
@@ -204,7 +205,7 @@ Unflatten(f) ==
            pd   |-> f.par[i].pd, pn |-> f.par[i].pn, pp |-> f.par[i].pp,
            oc   |-> f.par[i].oc, od |-> f.par[i].od, om |-> f.par[i].om]])
 
-Load(f) == Canon(Unflatten(f))        \* Database.load: _compose, then root.sort() (sortReactor)
+LoadFile(f) == Canon(Unflatten(f))        \* Database.load: _compose, then root.sort() (sortReactor)
 
 \* Layout.computeAncestors(serialNum, numChildren, depth = 1), statement by statement (layout.py:529-545)
 Ancestors(sn, nc) ==
